@@ -122,7 +122,7 @@ def main():
         rep.fail("broken-proof", "Coq no longer checks: %s" % ", ".join(broken), key=prop + ":proof",
                  theorem=", ".join(broken), observed=errtxt)
     # 4. hygiene and assumptions
-    bad = esrv.hygiene()
+    bad = esrv.hygiene(only=set(deps))
     if bad:
         rep.fail("broken-proof", "hygiene scan found forbidden constructs: %s" % bad[:5], key=prop + ":hygiene",
                  theorem="hygiene")
